@@ -9,6 +9,7 @@ import (
 	"math/big"
 	"strconv"
 	"strings"
+	"unicode/utf8"
 
 	"github.com/ohler55/slip"
 	"golang.org/x/text/cases"
@@ -156,8 +157,13 @@ func (c *control) readDir() {
 			}
 			params = append(params, p)
 		case '\'':
-			p := c.readParam()
-			params = append(params, slip.ReadCharacter(p))
+			// A quote is followed by exactly one character, any character.
+			r, size := utf8.DecodeRune(c.str[c.pos:c.end])
+			if size == 0 {
+				c.invalidDir(c.str, c.pos)
+			}
+			c.pos += size
+			params = append(params, slip.Character(r))
 		case '-', '0', '1', '2', '3', '4', '5', '6', '7', '8', '9':
 			c.pos--
 			p := c.readParam()
